@@ -4,6 +4,7 @@ patch="$(readlink -f "$1")"; shift
 cd /repo || exit 2
 git diff --quiet || { echo "/repo has uncommitted changes"; exit 2; }
 git apply "$patch" || { echo "patch does not apply"; exit 2; }
+export VERIF_EVIDENCE_DIR=/tmp/mutant-evidence VERIF_REPLAY_DIR=/tmp/mutant-replays
 for p in "$@"; do
   /verif/check "$p" quick > /tmp/mutant.$$.out 2>&1; rc=$?
   echo "== $(basename $patch) $p rc=$rc $(grep -c '^VIOLATION' /tmp/mutant.$$.out) violation line(s)"
